@@ -45,6 +45,12 @@
 //   .toAssignment(); the checked Lean twin (Model/TranspCostsChecked + TranspRunChecked) must print the same floats, the
 //   same fixed-point costs and the same assignment and never fault.  H (beyond the domain, one child per case, int-cost
 //   constructor): quantities up to 2^62 and signed costs up to INT_MAX/3; the model must predict exactly the UBSan kills.
+// Stages B/Z: the integer bookkeeping of the density grid (harness/c07_grid.hpp): DensityGrid(binSize, regions) with every limit,
+//   bin capacity and totalCapacity(), HierarchicalDensityPlacement(grid, demands) with totalDemand(), a walk of refineX / refineY /
+//   coarsenX / coarsenY with binUsage / binCapacity of every bin of the view after each call, updateCellDemand(circuit); tied to
+//   the checked twins of Model/GridChecked.lean.  B in-domain (regions within +-2^22, batches: equal, never a fault), Z beyond
+//   (coordinates up to 2^31, piles of (2^31 - 1)^2 regions, binSize <= 0, ill-formed regions, calls outside their contract in the
+//   assertion-enabled build; one child per case, the model predicts the kills).
 //
 // The work is spread over J worker processes (cases k = w mod J); workers only write
 // record files, the parent aggregates them in case order, so the result does not
@@ -72,6 +78,7 @@
 #define private public
 #include "place_global/density_legalizer.hpp"
 #undef private
+#include "c07_grid.hpp"
 
 using namespace coloquinte;
 static const long long M22 = 1ll << 22;
@@ -1873,7 +1880,7 @@ static const int MBATCH = 500;
 static bool parseFlowCase(const std::string &in, Case &cs);
 static std::vector<std::string> corpusFiles(const std::string &dir, bool withSlow);
 
-// development aid: C07_STAGES=<letters of C F D K M X S A T Y I J P Q U G H> restricts the run to these stages
+// development aid: C07_STAGES=<letters of C F D K M X S A T Y I J P Q U G H B Z> restricts the run to these stages
 static bool stageOn(char c) {
   const char *e = getenv("C07_STAGES");
   return !e || !*e || strchr(e, c);
@@ -2365,6 +2372,77 @@ static void worker(const vh::Args &a, int w, int J, const Plan &pl, const std::s
     }
     writeRec(f, r);
   }
+  // stage B: batches of in-domain density-grid sessions; a batch that dies is re-run one instance per child to name it
+  {
+    long long nB = a.thorough() ? 120000 : (a.search() ? 20000 : 12000), nZ = a.thorough() ? 20000 : (a.search() ? 2400 : 2400);
+    const int BBATCH = 200;
+    long long nBB = (nB + BBATCH - 1) / BBATCH;
+    for (long long bt = w; bt < nBB && stageOn('B'); bt += J) {
+      Rec r; r.k = bt; r.stage = "B"; r.id = "b" + std::to_string(bt);
+      std::ostringstream ops;
+      std::vector<c07grid::Inst> v;
+      for (long long i = bt * BBATCH; i < std::min<long long>(nB, (bt + 1) * BBATCH); ++i) {
+        vh::Rng g = vh::Rng::forCase(a.seed ^ 0x4242, i);
+        v.push_back(c07grid::gen(g, false));
+        ops << "case b" << i << "\n" << c07grid::ops(v.back());
+      }
+      std::string output, diag;
+      std::string fate = vh::isolated([&](std::ostream &os) {
+        for (size_t j = 0; j < v.size(); ++j) { os << "case b" << (bt * BBATCH + (long long)j) << "\n"; c07grid::impl(v[j], os); }
+      }, output, pl.timeout, &diag);
+      r.fate = fate; r.ops = ops.str(); r.impl = output;
+      long long nOps = 0, nMulti = 0, nUpd = 0, nOverlap = 0, nEdge = 0, nNoReg = 0;
+      for (auto &t : v) {
+        nOps += (long long)t.walk.size();
+        if (t.nbX > 1 && t.nbY > 1) nMulti++;
+        if (!t.upd.empty()) nUpd++;
+        if (t.family == 1 && t.regs.size() > 1) nOverlap++;
+        if (t.regs.empty()) nNoReg++;
+        for (auto &q : t.regs) if (q[0] == -M22 || q[1] == M22 || q[2] == -M22 || q[3] == M22) { nEdge++; break; }
+      }
+      r.counts = "grid_domain_instances=" + std::to_string(v.size()) + ",grid_refine_coarsen_calls=" + std::to_string(nOps) +
+                 ",grid_bins_in_both_directions=" + std::to_string(nMulti) + ",grid_update_cell_demand=" + std::to_string(nUpd) +
+                 ",grid_overlapping_regions=" + std::to_string(nOverlap) + ",grid_region_at_2^22=" + std::to_string(nEdge) +
+                 ",grid_no_region=" + std::to_string(nNoReg);
+      if (fate != "ok") {
+        r.what = "[grid_unit] DensityGrid / HierarchicalDensityPlacement faulted (" + fate + ") on an in-domain session: " + summarize(diag);
+        r.input = r.ops;
+        for (size_t j = 0; j < v.size(); ++j) {
+          std::string o2, d2;
+          std::string f2 = vh::isolated([&](std::ostream &os) { c07grid::impl(v[j], os); }, o2, pl.timeout, &d2);
+          if (f2 != "ok") {
+            r.what = "[grid_unit] DensityGrid(binSize, regions) / HierarchicalDensityPlacement(grid, demands) + refine/coarsen walk on "
+                     "regions within 2^22 ended with " + f2 + " instead of returning: " + summarize(d2);
+            r.input = c07grid::ops(v[j]);
+            break;
+          }
+        }
+        r.impl = "";
+        r.ops = "";
+      }
+      writeRec(f, r);
+    }
+    // stage Z: one child per beyond-domain density-grid session
+    for (long long k = w; k < nZ && stageOn('Z'); k += J) {
+      vh::Rng g = vh::Rng::forCase(a.seed ^ 0x5a5a, k);
+      c07grid::Inst t = c07grid::gen(g, true);
+      Rec r; r.k = k; r.stage = "Z"; r.id = "z" + std::to_string(k);
+      r.ops = "xcase z" + std::to_string(k) + "\n" + c07grid::ops(t) + "endx\n";
+      std::string output, diag;
+      std::string fate = vh::isolated([&](std::ostream &os) { c07grid::impl(t, os); }, output, pl.timeout, &diag);
+      r.fate = fate;
+      r.impl = "xcase z" + std::to_string(k) + "\n" + (fate == "ok" ? output : std::string("fault\n"));
+      r.counts = std::string("grid_wild_family") + std::to_string(t.family) + "_" + (fate == "ok" ? "no_fault" : "fault_" + fate) +
+                 (t.invalidOp ? ",grid_wild_call_outside_contract" : "");
+      if (fate != "ok" && fate != "abort" && fate != "sanitizer") {
+        // a timeout or a crash that is not an assertion / sanitizer report is not something the checked model predicts
+        r.stage = "B";
+        r.what = "[grid_unit] DensityGrid / HierarchicalDensityPlacement session ended with " + fate + ": " + summarize(diag);
+        r.input = c07grid::ops(t);
+      }
+      writeRec(f, r);
+    }
+  }
 }
 
 // ------------------------------------------------------------------ replay
@@ -2511,6 +2589,13 @@ static int replay(const vh::Args &a, vh::Out &out) {
     if (!parseGi(is, t)) { out.notes.push_back("cannot parse replay"); out.finish(); return 2; }
     std::string fate = vh::isolated([&](std::ostream &os) { giImpl(t, os); }, output, 600, &diag);
     if (fate != "ok") out.fail("replay", "TransportationProblem(int costs) ended with " + fate + ": " + summarize(diag), in);
+  } else if (first == "gnew") {
+    c07grid::Inst t;
+    std::string output, diag;
+    std::istringstream gs(in);
+    if (!c07grid::parse(gs, t)) { out.notes.push_back("cannot parse replay"); out.finish(); return 2; }
+    std::string fate = vh::isolated([&](std::ostream &os) { c07grid::impl(t, os); }, output, 600, &diag);
+    if (fate != "ok") out.fail("replay", "DensityGrid / HierarchicalDensityPlacement session ended with " + fate + ": " + summarize(diag), in);
   } else if (first == "dnew") {
     std::string output, diag;
     std::string fate = vh::isolated([&](std::ostream &os) { detReplayOps(in, os); }, output, 600, &diag);
@@ -2566,7 +2651,7 @@ int main(int argc, char **argv) {
     for (auto &r : readRecs(p)) recs.push_back(r);
     unlink(p.c_str());
   }
-  static const std::string order = "CFMXSATYIJPQUVWGH";
+  static const std::string order = "CFMXSATYIJPQUVWGHBZ";
   std::stable_sort(recs.begin(), recs.end(), [](const Rec &x, const Rec &y) {
     size_t sx = order.find(x.stage), sy = order.find(y.stage);
     return sx != sy ? sx < sy : x.k < y.k;
@@ -2584,7 +2669,7 @@ int main(int argc, char **argv) {
       "(cbmod_* keys: script content and how many actions fired); non-trivial = at least one entry point returned normally (the case went "
       "through the algorithms rather than being rejected up front), distinct by canonical text of the case; "
       "unit cases (row legalizer / Tetris / IncrNetModel / DetailedPlacement streams, computeSubdivisions, Abacus cost "
-      "evaluation, 1-D transportation lines, reoptimize's general transportation) at 2^22 magnitude are counted in the distribution";
+      "evaluation, 1-D transportation lines, reoptimize's general transportation, density-grid sessions) at 2^22 magnitude are counted in the distribution";
   std::map<std::string, int> perTag;
   for (auto &r : recs) {
     // counts: "a,b=3,c"
@@ -2597,14 +2682,14 @@ int main(int argc, char **argv) {
     }
     if (r.fate == "skipped") continue;
     if (r.stage == "F" || r.stage == "C") out.evaluations++;
-    else if (r.stage == "M" || r.stage == "A" || r.stage == "T" || r.stage == "I" || r.stage == "P" || r.stage == "U" || r.stage == "V" || r.stage == "G") { /* counted through the distribution */ }
+    else if (r.stage == "M" || r.stage == "A" || r.stage == "T" || r.stage == "I" || r.stage == "P" || r.stage == "U" || r.stage == "V" || r.stage == "G" || r.stage == "B") { /* counted through the distribution */ }
     else out.evaluations++;
     if (r.nontrivialHash) out.nontrivial(r.nontrivialHash);
     if (!r.sample.empty() && (r.k % 97 == 0 || r.fate != "ok")) out.sample(r.sample);
     out.ops << r.ops;
     out.impl << r.impl;
     // a fault of stage X (beyond the domain) is not a property failure; it is compared with the model's prediction
-    if (r.stage != "X" && r.stage != "Y" && r.stage != "J" && r.stage != "Q" && r.stage != "H" && r.stage != "W" && r.fate != "ok") {
+    if (r.stage != "X" && r.stage != "Y" && r.stage != "J" && r.stage != "Q" && r.stage != "H" && r.stage != "W" && r.stage != "Z" && r.fate != "ok") {
       // keep every kind of failure visible below the 200-line cap of oracle.txt
       size_t a = r.what.find('['), b = r.what.find(']');
       std::string tag = (a != std::string::npos && b != std::string::npos && b > a) ? r.what.substr(a, b - a + 1) : "[untagged]";
@@ -2624,7 +2709,7 @@ int main(int argc, char **argv) {
     }
     out.notes.push_back(note);
   }
-  out.evaluations += out.dist["rowleg_domain_instances"] + out.dist["abacus_eval_instances"] + out.dist["tetris_domain_instances"] + out.dist["incrnet_domain_instances"] + out.dist["detplace_domain_sessions"] + out.dist["transp1d_instances"] + out.dist["transp1d_scaled_instances"] + out.dist["transp_domain_instances"];
+  out.evaluations += out.dist["rowleg_domain_instances"] + out.dist["abacus_eval_instances"] + out.dist["tetris_domain_instances"] + out.dist["incrnet_domain_instances"] + out.dist["detplace_domain_sessions"] + out.dist["transp1d_instances"] + out.dist["transp1d_scaled_instances"] + out.dist["transp_domain_instances"] + out.dist["grid_domain_instances"];
   if (workerDied) out.notes.push_back("a worker process died: results are incomplete");
   out.finish();
   return workerDied ? 4 : 0;
